@@ -172,8 +172,17 @@ CorruptCases(cl, a, R) ==
            \cup (IF Len(Rc) > 2 THEN {Exch(cl, a, Rc, <<Chunk(2), Empty("deadline"), Chunk(Len(Rc) - 2)>>, "none", 0, 0)} ELSE {}) :
            Rc \in Corruptions(R) \ {R}}
 ExcCodesStd == {1, 2, 3, 4, 5, 6, 8, 10, 11}
+\* a CRC-valid five byte exception frame planted inside a reply whose own trailer stays inconsistent, and
+\* delivered as a read of its own: no PART of what was received may be taken for the reply
+BadTrailer(f) == CRCTrailer(SubSeq(f, 1, Len(f) - 2)) # SubSeq(f, Len(f) - 1, Len(f))
+EmbeddedCases(cl, a, R) ==
+    LET L == Len(R) IN
+    {Exch(cl, a, e[1], ChunkScript(L, {e[2] - 1, e[2] + 4} \cap (1..(L - 1))), "none", 0, 0) :
+        e \in {x \in {<<[j \in 1..L |-> IF j \in p..(p + 4) THEN ExcReplyTo("rtu", a, code)[j - p + 1] ELSE R[j]], p>> :
+                        p \in 2..(L - 4), code \in {1, 2, 4}} : BadTrailer(x[1])}}
 C12Cases(z) ==
     UNION {CorruptCases(cl, a, ReplyTo("rtu", a, <<2, 2>>)) : cl \in {"rtu", "serial"}, a \in ReqShapes("s")}
+    \cup UNION {EmbeddedCases(cl, a, ReplyTo("rtu", a, <<6, 6>>)) : cl \in {"rtu", "serial"}, a \in ReqShapes("m")}
     \cup UNION {CorruptCases(cl, a, ExcReplyTo("rtu", a, code)) : cl \in {"rtu", "serial"},
                  a \in {x \in ReqShapes("s") : x.fc \in {3, 16, 17}}, code \in (IF Thorough THEN ExcCodesStd ELSE {2, 11})}
 
